@@ -41,6 +41,9 @@ var c13Templates = [][]string{
 	{"blpop", "K", "F"}, {"brpop", "K", "K", "F"}, {"blmove", "K", "K", "LEFT", "RIGHT", "F"}, {"brpoplpush", "K", "K", "F"}, {"blmpop", "F", "I", "K", "LEFT", "COUNT", "I"},
 	{"incrbyfloat", "K", "F"}, {"hincrbyfloat", "K", "f1", "F"}, {"lcs", "K", "K", "MINMATCHLEN", "I"}, {"lcs", "K", "K", "IDX", "MINMATCHLEN", "I", "WITHMATCHLEN"}, {"linsert", "K", "BEFORE", "a", "x"},
 	{"hello", "I"}, {"smismember", "K", "a", "b"}, {"keys", "P"}, {"scan", "0", "MATCH", "P"}, {"sscan", "K", "0", "MATCH", "P"}, {"hscan", "K", "0", "MATCH", "P"}, {"command", "list", "filterby", "pattern", "P"},
+	{"lcs", "kbig1", "kbig2"}, {"lcs", "kbig1", "kbig2", "IDX"}, {"lcs", "kbig1", "kbig1", "LEN"}, {"lcs", "kbig2", "K", "IDX", "WITHMATCHLEN"},
+	{"sort", "K", "BY", "P"}, {"sort", "K", "BY", "w_*", "GET", "P", "GET", "#"}, {"sort", "K", "BY", "h_*->f", "LIMIT", "I", "I", "GET", "h_*->"}, {"sort", "K", "GET"},
+	{"sort", "K", "ALPHA", "LIMIT", "I", "I", "STORE", "K"}, {"sort", "K", "BY", "nosort", "GET", "*->", "STORE", "K"}, {"sort", "kbig1", "ALPHA"},
 	{"dump", "K"}, {"rename", "K", "K"}, {"smove", "K", "K", "a"}, {"lmove", "K", "K", "LEFT", "LEFT"}, {"sinterstore", "K", "K", "K"}, {"msetnx", "K", "v", "K", "v"}, {"getdel", "K"},
 }
 
@@ -48,6 +51,16 @@ var c13Ints = []string{"0", "1", "-1", "2", "3", "7", "8", "64", "-100", "100", 
 	"9223372036854775807", "-9223372036854775808", "9223372036854775806", "-9223372036854775807", "4611686018427387904", "4000000000000000000", "536870912"}
 var c13Floats = []string{"0", "0.01", "-1", "1e308", "-1e308", "inf", "-inf", "nan", "1e-320", "0.0000000001", "9223372036854775807", "3.5e18", "abc", ""}
 var c13Patterns = []string{"*", "[a-", "[^a-", "k[", "k[a", "k[a-", "*[", "\\", "k\\", "[]", "[^]", "[z-a]*", "?*?*?*", "k[\\", "*****k*****a", "[a-]x", "[-a", "[\\"}
+
+// two different 12 KB strings over a small alphabet: their LCS table has 1.4e8 cells
+func c13Big(which int) string {
+	r := rand.New(rand.NewSource(int64(which)))
+	b := make([]byte, 12000)
+	for i := range b {
+		b[i] = "abcd"[r.Intn(4)]
+	}
+	return string(b)
+}
 
 func c13Fill(g *rand.Rand, t []string) []string {
 	keys := []string{"ka", "kl", "kh", "ks", "kmissing"}
@@ -113,7 +126,8 @@ func (r *c13Runner) newVictim() error {
 
 func (r *c13Runner) seedState() error {
 	c := r.by
-	for _, cmd := range [][]string{{"FLUSHALL"}, {"SET", "ka", "hello"}, {"RPUSH", "kl", "a", "b", "c"}, {"HSET", "kh", "f1", "1", "f2", "x"}, {"SADD", "ks", "a", "b", "c"}} {
+	for _, cmd := range [][]string{{"FLUSHALL"}, {"SET", "ka", "hello"}, {"RPUSH", "kl", "a", "b", "c"}, {"HSET", "kh", "f1", "1", "f2", "x"}, {"SADD", "ks", "a", "b", "c"},
+		{"SET", "kbig1", c13Big(1)}, {"SET", "kbig2", c13Big(2)}, {"SET", "w_a", "1"}, {"HSET", "h_a", "f", "1"}} {
 		if _, err := c.Do(3*time.Second, bs(cmd...)...); err != nil {
 			return err
 		}
